@@ -31,11 +31,12 @@ type c19Scenario struct {
 
 func init() {
 	register(&PropDef{
-		ID:   "C19",
-		Rule: "scenario = (base, factor, cap, jitter on/off, op sequence over wait/reset/per-attempt query); non-trivial = at least one wait reached the cap or at least 3 consecutive waits; distinct = distinct scenario hash (the schedule has one task)",
-		Real: []string{"xmpp.backoff (duration, wait, durationForAttempt, reset) incl. its time.Sleep and math/rand jitter"},
-		Stub: []string{"clock (synctest fake clock)", "math/rand global source seeded per run"},
-		Run:  runC19,
+		ID:    "C19",
+		Rule:  "scenario = (base, factor, cap, jitter on/off, op sequence over wait/reset/per-attempt query); non-trivial = at least one wait reached the cap or at least 3 consecutive waits; distinct = distinct scenario hash (the schedule has one task)",
+		Real:  []string{"xmpp.backoff (duration, wait, durationForAttempt, reset) incl. its time.Sleep and math/rand jitter"},
+		Stub:  []string{"clock (synctest fake clock)", "math/rand global source seeded per run"},
+		Run:   runC19,
+		Reach: []string{"c19.system_gaps_checked", "c19.reached_cap"},
 	})
 }
 
